@@ -457,6 +457,8 @@ func (d *Device) exists(kind, name string) bool {
 		return d.Block("crypto ipsec ikev2 ipsec-proposal "+name) != nil
 	case "pool":
 		return d.hasLinePrefix("ip local pool " + name + " ")
+	case "cert-rule":
+		return d.Block("crypto ca certificate map "+name) != nil
 	case "cert-map":
 		for _, b := range d.Blocks {
 			if strings.HasPrefix(b.Header, "crypto ca certificate map "+name+" ") {
@@ -543,6 +545,7 @@ func (d *Device) Refs() []Ref {
 				add(l, "tunnel-group", w[2])
 			} else if len(w) >= 4 {
 				add(l, "cert-map", w[1])
+				add(l, "cert-rule", w[1]+" "+w[2])
 				add(l, "tunnel-group", w[3])
 			}
 		}
@@ -570,6 +573,7 @@ func (d *Device) Refs() []Ref {
 				add(b.Header+" / "+s, "aaa-server", w[1])
 			case len(w) == 4 && w[0] == "certificate-group-map":
 				add(b.Header+" / "+s, "cert-map", w[1])
+				add(b.Header+" / "+s, "cert-rule", w[1]+" "+w[2])
 				add(b.Header+" / "+s, "tunnel-group", w[3])
 			case len(w) == 2 && w[0] == "ldap-attribute-map":
 				add(b.Header+" / "+s, "ldap-map", w[1])
